@@ -244,6 +244,19 @@ def end_to_end(run, driver, n):
             fits.append((kw.get("taus"), np.asarray(x).shape[0], sorted(float(v) for v in np.asarray(y).ravel())))
             return orig_fit(self_, x, y, *a, **kw)
 
+        if rng.random() < 0.3:
+            # the model object has been used before, for another set of counts of the same units (a back-test loop, the next poll)
+            rep0 = rep.copy()
+            noise = np.array([rng.choice([0.6, 0.8, 1.25, 1.5]) for _ in range(rep0.shape[0])])
+            rep0[f"results_{est}"] = np.floor(rep0[f"results_{est}"].to_numpy(dtype=float) * noise)
+            rep0[f"residuals_{est}"] = (rep0[f"results_{est}"] - rep0[f"last_election_results_{est}"]) / rep0[f"last_election_results_{est}"]
+            case["model_used_before"] = True
+            try:
+                with np.errstate(all="ignore"):
+                    model.get_unit_predictions(rep0, nonrep, est)
+                    model.get_unit_prediction_intervals(rep0, nonrep, alpha, est)
+            except Exception:
+                pass
         QRS.fit = rec_fit
         try:
             with np.errstate(all="ignore"):
@@ -376,6 +389,71 @@ def api_levels(run, n):
             run.traces += 1
 
 
+def coverage_stream(run, n_elections, n_units=300):
+    """the probabilistic clause, observed: elections whose units are exchangeable and of equal baseline size (heavy lower tail: a
+    quarter of the units collapse to 25-45 percent of their baseline), a random half reporting, run through the client with the
+    turnout-factor limits switched off (lower 0, upper 10) so that no reporting unit is removed by its outcome.  Pooled over the
+    elections, the share of not-yet-reporting units whose true count lies inside the reported interval must not fall short of the
+    level.  This is a statistical observation with a wide margin (alarm below alpha - 0.08 on >= 2000 units, > 5 standard deviations
+    of the pooled share for the sizes used); it supports the search for a failing input and stands in for no theorem."""
+    rng = run.rng
+    alphas = [0.7, 0.9]
+    inside = {a: 0 for a in alphas}
+    total = 0
+    seeds = []
+    for k in range(n_elections):
+        seed = rng.randint(0, 10**9)
+        seeds.append(seed)
+        r2 = np.random.default_rng(seed)
+        e = E.Election()
+        e.states, e.unit_type, e.office, e.threshold = ["AA"], "county", "G", 100
+        truth, rows, feed = {}, [], []
+        reporting = r2.permutation(n_units) < n_units // 2
+        for i in range(n_units):
+            uid = f"1{i:04d}"
+            f = float(np.exp(r2.normal(0, 0.1))) if r2.random() >= 0.25 else float(r2.uniform(0.25, 0.45))
+            t = int(round(1000 * f))
+            truth[uid] = t
+            rows.append({"postal_code": "AA", "geographic_unit_fips": uid, "county_fips": uid, "county_classification": "urban",
+                         "baseline_dem": 500, "baseline_gop": 480, "baseline_turnout": 1000, "x1": 0.0, "x2": 0.0})
+            rep = bool(reporting[i])
+            feed.append({"postal_code": "AA", "geographic_unit_fips": uid, "percent_expected_vote": 100 if rep else 0,
+                         "results_dem": t // 2 if rep else 0, "results_gop": t - t // 2 - t // 50 if rep else 0,
+                         "results_turnout": t if rep else 0})
+        e.pre, e.cur = pd.DataFrame(rows), pd.DataFrame(feed)
+        e.roles = {r["geographic_unit_fips"]: ("reporting" if reporting[i] else "zero-percent") for i, r in enumerate(rows)}
+        res = E.run_client(e, estimands=["turnout"], alphas=alphas, pi_method="nonparametric", features=[], aggregates=["postal_code", "unit"],
+                           params={"turnout_factor_lower": 0, "turnout_factor_upper": 10})
+        run.count("coverage elections")
+        if "raises" in res:
+            run.violation("exchangeable election through the client failed: " + res["raises"], input={"coverage_seed": seed},
+                          impl=res.get("msg"), predicate="covered_count_ge", signature="C04:coverage-raise")
+            return
+        ud = res["tables"]["unit_data"]
+        for r in ud.to_dict(orient="records"):
+            u = r["geographic_unit_fips"]
+            if reporting[int(u[1:])]:
+                continue
+            total += 1
+            for a in alphas:
+                if r[f"lower_{a}_turnout"] <= truth[u] <= r[f"upper_{a}_turnout"]:
+                    inside[a] += 1
+    case = {"coverage": True, "elections": n_elections, "units_per_election": n_units, "election_seeds": seeds[:5]}
+    run.case(case, True)
+    cov = {a: inside[a] / max(total, 1) for a in alphas}
+    run.info["pooled_coverage"] = {str(a): round(cov[a], 4) for a in alphas}
+    run.info["pooled_coverage_units"] = total
+    if total >= 2000:
+        for a in alphas:
+            if cov[a] < a - 0.08:
+                run.violation("exchangeable units of equal size, turnout-factor limits off: the pooled share of not-yet-reporting units whose "
+                              "true count lies inside the reported interval is far below the level", input=dict(case, alpha=a),
+                              impl={"coverage": round(cov[a], 4), "units": total}, expected=f">= {a} (alarm below {a - 0.08:.2f})",
+                              predicate="covered_count_ge / equal_weights_rank (observed)", signature="C04:coverage")
+                return
+    run.traces += 1
+
+
 def extract(run):
     return X.generate("C04")
 
@@ -387,6 +465,7 @@ def explore(run, driver, budget):
     leave_one_out(run, driver, n[2])
     api_levels(run, {"quick": 4, "thorough": 150, "search": 20}[budget])
     end_to_end(run, driver, n[1])
+    coverage_stream(run, {"quick": 24, "thorough": 120, "search": 40}[budget])
 
 
 def replay(run, driver, payload):
